@@ -155,6 +155,8 @@ where
                 .expect("Failed to record a get op");
         };
         let now = self.inner.current_time_from_expiration_clock();
+        #[cfg(mini_moka_verif)]
+        crate::verif::sched::point("get:start");
 
         match self.inner.get(key) {
             None => {
@@ -215,6 +217,8 @@ where
 
     pub(crate) fn invalidate_all(&self) {
         let now = self.inner.current_time_from_expiration_clock();
+        #[cfg(mini_moka_verif)]
+        crate::verif::sched::point("invalidate_all:before_set");
         self.inner.set_valid_after(now);
     }
 }
@@ -255,7 +259,11 @@ where
         op: ReadOp<K, V>,
         now: Instant,
     ) -> Result<(), TrySendError<ReadOp<K, V>>> {
+        #[cfg(mini_moka_verif)]
+        crate::verif::sched::point("rop:start");
         self.apply_reads_if_needed(self.inner.as_ref(), now);
+        #[cfg(mini_moka_verif)]
+        crate::verif::sched::point("rop:before_send");
         let ch = &self.read_op_ch;
         match ch.try_send(op) {
             // Discard the ReadOp when the channel is full.
@@ -273,6 +281,8 @@ where
     ) -> (WriteOp<K, V>, Instant) {
         let ts = self.inner.current_time_from_expiration_clock();
         let weight = self.inner.weigh(&key, &value);
+        #[cfg(mini_moka_verif)]
+        crate::verif::sched::point("insert:before_map");
         let mut insert_op = None;
         let mut update_op = None;
 
@@ -651,7 +661,11 @@ where
     S: BuildHasher + Clone + Send + Sync + 'static,
 {
     fn sync(&self, max_repeats: usize) {
+        #[cfg(mini_moka_verif)]
+        crate::verif::sched::wait_until("sync:lock", || self.deques.try_lock().is_ok());
         let mut deqs = self.deques.lock().expect("lock poisoned");
+        #[cfg(mini_moka_verif)]
+        crate::verif::sched::point("sync:locked");
         let mut calls = 0;
         let mut should_sync = true;
 
@@ -664,11 +678,15 @@ where
             if r_len > 0 {
                 self.apply_reads(&mut deqs, r_len);
             }
+            #[cfg(mini_moka_verif)]
+            crate::verif::sched::point("sync:after_reads");
 
             let w_len = self.write_op_ch.len();
             if w_len > 0 {
                 self.apply_writes(&mut deqs, w_len, &mut counters);
             }
+            #[cfg(mini_moka_verif)]
+            crate::verif::sched::point("sync:after_writes");
 
             if self.should_enable_frequency_sketch(&counters) {
                 self.enable_frequency_sketch(&counters);
@@ -679,6 +697,8 @@ where
                 || self.write_op_ch.len() >= WRITE_LOG_FLUSH_POINT;
         }
 
+        #[cfg(mini_moka_verif)]
+        crate::verif::sched::point("sync:before_evict");
         if self.has_expiry() || self.has_valid_after() {
             self.evict_expired(&mut deqs, batch_size::EVICTION_BATCH_SIZE, &mut counters);
         }
@@ -694,10 +714,17 @@ where
             );
         }
 
+        #[cfg(mini_moka_verif)]
+        crate::verif::sched::point("sync:before_publish");
         debug_assert_eq!(self.entry_count.load(), current_ec);
         debug_assert_eq!(self.weighted_size.load(), current_ws);
         self.entry_count.store(counters.entry_count);
         self.weighted_size.store(counters.weighted_size);
+        #[cfg(mini_moka_verif)]
+        {
+            drop(deqs);
+            crate::verif::sched::point("sync:unlocked");
+        }
     }
 
     fn now(&self) -> Instant {
@@ -796,6 +823,8 @@ where
         let ch = &self.write_op_ch;
 
         for _ in 0..count {
+            #[cfg(mini_moka_verif)]
+            crate::verif::sched::point("sync:write_op");
             match ch.try_recv() {
                 Ok(Upsert {
                     key_hash: kh,
@@ -902,6 +931,8 @@ where
                 skipped_nodes: mut skipped,
             } => {
                 // Try to remove the victims from the cache (hash map).
+                #[cfg(mini_moka_verif)]
+                crate::verif::sched::point("upsert:after_admit");
                 for victim in victim_nodes {
                     // Remove the victim only if the hash map still holds the entry
                     // this node belongs to (not a re-inserted entry of the same key).
